@@ -58,6 +58,8 @@ pub open spec fn step(a: R, p: P) -> R {
         ca: join_ca(a.ca, p.ca), lim_filter: join_lim(a.lim_filter, p.lim_filter), lim_results: join_lim(a.lim_results, p.lim_results),
         fallback: join_fb(a.fallback, p.fallback) }
 }
+// the fields the statement of C35 names (expiries, minimum length, credential type, trusted CAs)
+pub open spec fn named(a: R) -> (u32, u32, u32, u32, CredentialType, Option<Set<nat>>) { (a.privilege_expiry, a.authsession_expiry, a.pw_min_length, a.pw_max_length, a.credential_policy, a.ca) }
 pub open spec fn fold(a: R, ps: Seq<P>) -> R decreases ps.len() { if ps.len() == 0 { a } else { fold(step(a, ps[0]), ps.subrange(1, ps.len() as int)) } }
 
 // ---- layer 3 lemmas: order independence and strictness for ANY number of policies, from the step specification alone ----
